@@ -458,3 +458,22 @@ def run_check(pid, level, body):
         traceback.print_exc()
         return c.finish(tool_error=f"{type(ex).__name__}: {ex}")
     return c.finish()
+
+
+def parse_walks(stdout):
+    """Split the EmitWalk lines of a `tlc -simulate -workers 1` run into behaviours (lvl==2 starts one; a line whose
+    lvl is not last+1 is a re-evaluated state, not a step)."""
+    walks = []
+    cur = None
+    last = 0
+    for line in stdout.splitlines():
+        if line.startswith('"{'):
+            j = json.loads(json.loads(line))
+            if j["lvl"] == 2:
+                cur = []
+                walks.append(cur)
+            elif cur is None or j["lvl"] != last + 1:
+                continue
+            last = j["lvl"]
+            cur.append(j)
+    return [w for w in walks if w]
